@@ -6,7 +6,7 @@ INFO = {
                "through (no path builds a later-class stage before an earlier one, every constructor is a known "
                "class, each stage's successor is the value built so far); repeated --select are wrapped in reverse "
                "and repeated --sort-by in forward order; the start/complete protocol reaches every stage on every "
-               "non-error path and end-of-input is signalled exactly once, from complete() only. The unique stage forwards a row iff its key was new and keys rows on the selected values; the limiter, extracted as a finite machine by partial evaluation, forwards exactly rows S..S+T-1 for skip 0..3 x take none/0..3. No stage but the limiter answers Break on its own.",
+               "non-error path and end-of-input is signalled exactly once, from complete() only. The unique stage forwards a row iff its key was new and keys rows on the selected values; the limiter, extracted as a finite machine by partial evaluation, forwards exactly rows S..S+T-1 for skip 0..3 x take none/0..3. No stage but the limiter answers Break on its own. The sort stage's comparator is the documented order (rank, delegates, lexicographic cascade) and ContextKey's equality / hash are the derived ones.",
     "not_decided": "That each stage computes the right list transformation on run-time values, hence not the "
                    "equality with a reference pipeline interpreter.",
     "trusted": ["sa/tables/pipeline_order.toml (transcribed from the property statement and the CLI help)"],
@@ -30,5 +30,8 @@ def run(ctx, rep):
     P.topn_adjacent(rep, lib)
     # the unique stage of the composition: first occurrences only, keyed on the row (shared with C10)
     from rules import c10, common
-    common.share(c10, ctx, rep, {"C10-FIRST-ONLY", "C10-KEY-SHAPE"})
+    common.share(c10, ctx, rep, {"C10-FIRST-ONLY", "C10-KEY-SHAPE", "C10-EQ-SAME"})
+    # the sort stage of the composition sorts by the documented total order (shared with C07)
+    from rules import c07 as _c07
+    common.share(_c07, ctx, rep, {"C07-RANK", "C07-ORD-DELEGATE", "C07-CASCADE"})
     P.limiter_machine(rep, lib, rid="C03-LIMITER-MACHINE")
